@@ -377,6 +377,50 @@ def r11_panics(b):
             return
 
 
+def r17_float_casts(b):
+    """`E as f64` (E an integer postfix expression) -> as_f64(E); `f64::NAN` -> f64_nan()  (Verus supports neither)"""
+    while True:
+        toks = b.toks()
+        done = True
+        for i, t in enumerate(toks):
+            if t.text == "f64" and i + 2 < len(toks) and toks[i + 1].text == "::" and toks[i + 2].text == "NAN":
+                b.edit([(t.start, toks[i + 2].end, "f64_nan()")], "R17")
+                done = False
+                break
+            if t.text == "as" and i + 1 < len(toks) and toks[i + 1].text == "f64" and i > 0:
+                # operand: postfix expression ending at i-1
+                k = i - 1
+                while True:
+                    if toks[k].text in (")", "]"):
+                        depth = 0
+                        while True:
+                            if toks[k].text in rtok.CLOSE:
+                                depth += 1
+                            elif toks[k].text in rtok.OPEN:
+                                depth -= 1
+                                if depth == 0:
+                                    break
+                            k -= 1
+                        if k > 0 and toks[k - 1].kind == "id" and toks[k - 1].text not in ("if", "while", "match", "return", "in"):
+                            k -= 1
+                        else:
+                            break
+                    elif toks[k].kind in ("id", "num"):
+                        pass
+                    else:
+                        raise ExtractError("unsupported construct: operand of `as f64`")
+                    if k > 0 and toks[k - 1].text in (".", "::"):
+                        k -= 2
+                        continue
+                    break
+                operand = b.text[toks[k].start:toks[i - 1].end]
+                b.edit([(toks[k].start, toks[i + 1].end, f"as_f64({operand})")], "R17")
+                done = False
+                break
+        if done:
+            return
+
+
 def find_loops(toks):
     """indices of loop keywords (for/while/loop) in source order, with the index of their body '{'"""
     res = []
@@ -554,6 +598,19 @@ def _process_file(unit, path, inst, top=False):
             cur_fn_ctx["props"] = s.split(None, 1)[1].strip().split(",")
             i += 1
             continue
+        if s.startswith("//@const "):
+            a = parse_attrs(s[len("//@const "):])
+            src, toks = crate_tokens(a["crate"])
+            hits = [h for h in _find_seq(toks, ["const", a["name"], ":"])]
+            if len(hits) != 1:
+                raise ExtractError(f"lost anchor: const {a['name']} in crate {a['crate']}")
+            j = hits[0]
+            while toks[j].text != ";":
+                j += 1
+            unit.emit("pub " + src[toks[hits[0]].start:toks[j].end] + f"   // extracted from {a['crate']}",
+                      dict(kind="code", fn=a["name"], crate=a["crate"], src_fn=a["name"], props=[], file=rel))
+            i += 1
+            continue
         if s.startswith("//@fn "):
             blk = FnBlock(parse_attrs(s[len("//@fn "):]), (rel, i + 1))
             i += 1
@@ -672,6 +729,7 @@ def emit_fn(unit, blk, rel):
     r6_enumerate(body)
     r7_destructuring_assign(body)
     r8_compound_assign(body)
+    r17_float_casts(body)
     if blk.callbacks:
         r5_callbacks(body, blk.callbacks)
     # --- loop contracts (by ordinal, before closures are moved)
@@ -728,8 +786,11 @@ def emit_fn(unit, blk, rel):
                     depth += 1
                 elif tt in rtok.OPEN:
                     if depth == 0:
-                        break
-                    depth -= 1
+                        if tt == "{":
+                            break
+                        # inside the argument list of a call: keep walking out to the statement
+                    else:
+                        depth -= 1
                 elif tt == ";" and depth == 0:
                     break
                 j -= 1
@@ -857,6 +918,11 @@ def make_closure(unit, blk, k, ca, cparams, cbody, ftext, ftoks, start_idx, base
         unit.emit(f"impl{ca.get('generics', '')} {ca['trait']} for {name}{ca.get('generics_use', '')} {{", dict(b, kind="meta"))
         for (txt, ol) in blk.sections.get(f"closure {k} extra", []):
             unit.emit(txt, dict(b, kind="contract", section="extra", cline=ol))
+        imm = [(nm, ty) for (m, nm, ty) in caps if not m]
+        cfg_ty = "(" + "".join(f"{ty}, " for _, ty in imm) + ")"
+        cfg_val = "(" + "".join(f"self.{nm}, " for nm, _ in imm) + ")"
+        unit.emit(f"    type Cfg = {cfg_ty};", dict(b, kind="glue"))
+        unit.emit(f"    open spec fn cfg(&self) -> {cfg_ty} {{ {cfg_val} }}", dict(b, kind="glue"))
         unit.emit("    open spec fn inv(&self) -> bool {", dict(b, kind="meta"))
         _emit_section(unit, blk, f"closure {k} inv", b)
         unit.emit("    }", dict(b, kind="meta"))
